@@ -720,6 +720,17 @@ def install(lib):
         return VStr(f(a[0].t))
     bm['decode'] = _decode
 
+    # bytes.join / bytes.rstrip: same models as for str (bytes are strings over 0..255 here), results stay bytes
+    def _bjoin(it, a, k, n):
+        r = _join.fn(it, a, k, n)
+        return VBytes(r.t) if isinstance(r, VStr) else r
+    bm['join'] = VFunc('bytes.join', _bjoin)
+
+    def _brstrip(it, a, k, n):
+        r = _rstrip.fn(it, a, k, n)
+        return VBytes(r.t) if isinstance(r, VStr) else r
+    bm['rstrip'] = VFunc('bytes.rstrip', _brstrip)
+
     # ------------------------------------------------------------ list methods
     lm = lib.list_methods = {}
 
